@@ -90,6 +90,17 @@ static void build_args() {
   for (int y = g_outLo; y <= g_outHi && y <= 2066; y++) { g_args.push_back((acetime_t) (days_from_civil(y, 7, 2) * 86400 + 43200)); char b[32]; snprintf(b, sizeof b, "%d-07-02", y); g_argNames.push_back(b); }
   for (int y : {2000, 2025, 2050}) { g_args.push_back((acetime_t) (days_from_civil(y, 1, 1) * 86400)); char b[32]; snprintf(b, sizeof b, "%d-01-01T00:00", y); g_argNames.push_back(b); }
   g_args.push_back((acetime_t) (days_from_civil(2009, 12, 31) * 86400 + 86399)); g_argNames.push_back("2009-12-31T23:59:59");
+  // instants next to the edges of the processors' year caches (the extended one spans Dec of year-1 .. Jan of year+1 in LOCAL
+  // time while it is keyed by the UTC year): first / last hours of Dec 1, Feb 1, Nov 30, Jan 31 next to a mid-year argument of
+  // the adjacent year, and the months just outside the supported range
+  {
+    struct X { int y, m, d, h; };
+    static const X xs[] = {{2018, 12, 1, 3}, {2018, 11, 30, 21}, {2019, 12, 1, 11}, {2020, 1, 31, 21}, {2020, 2, 1, 3}, {2051, 1, 15, 12}, {1998, 12, 15, 12}};
+    for (const X& x : xs) {
+      g_args.push_back((acetime_t) (days_from_civil(x.y, x.m, x.d) * 86400 + x.h * 3600));
+      char b[40]; snprintf(b, sizeof b, "%04d-%02d-%02dT%02d:00", x.y, x.m, x.d, x.h); g_argNames.push_back(b);
+    }
+  }
   { acetime_t inv = LocalDate::kInvalidEpochSeconds; g_args.push_back(inv); } g_argNames.push_back("SENTINEL");
 }
 // --------------------------------------------------------------------------- zone access by (kind, index)
